@@ -3,7 +3,7 @@ META = dict(
     level="proof",
     claim="Literal mechanics proved over their full input domains on the real tokenize.c/unicode.c: UTF-8 encode/decode round trip, length and advance for every code point <= 0x10FFFF; decoder never steps over the terminating NUL and only accepts continuation bytes; every escape sequence of a 5-byte buffer denotes the C11 value and consumes exactly its characters, invalid \\\\x is diagnosed; integer literal suffix grammar and the C11 6.4.4.1p5 typing ladder for all 2^64 values x 4 bases x every suffix string.",
     note="Assumed contract: strtoul returns the scanned value and consumes the digit run (libc). Not covered here: UTF-16/32 string readers, universal character names, adjacent-literal concatenation, floating literal rounding (libc strtold).",
-    functions=["unicode.c:encode_utf8", "unicode.c:decode_utf8", "tokenize.c:read_escaped_char", "tokenize.c:from_hex", "tokenize.c:convert_pp_int", "tokenize.c:startswith"],
+    functions=["tokenize.c:read_utf16_string_literal", "tokenize.c:read_utf32_string_literal", "tokenize.c:canonicalize_newline", "tokenize.c:remove_backslash_newline", "tokenize.c:convert_universal_chars", "tokenize.c:read_universal_char", "unicode.c:encode_utf8", "unicode.c:decode_utf8", "tokenize.c:read_escaped_char", "tokenize.c:from_hex", "tokenize.c:convert_pp_int", "tokenize.c:startswith"],
     trusted_base=["CBMC 6.11", "libc strtoul (assumed contract)", "CBMC's ctype/strncasecmp models"],
     assumptions=["strtoul(p,&end,base) returns an arbitrary value and end = start + digit run"],
 )
@@ -16,6 +16,13 @@ def jobs(tier):
         Job(name="escape", src="escape.c", group="C11.2 escapes", units=["unicode.c"], sample="read_escaped_char on every 5-byte buffer", unwind=8, **P, **TK),
         Job(name="escape-hexdiag", src="hexdiag.c", group="C11.2 escapes", units=["unicode.c"], sample="\\x followed by a non-hex byte", unwind=8, **P, **TK),
     ]
+    for ln in (1, 2, 3, 4):
+        for w in (16, 32):
+            js.append(Job(name=f"utf{w}-len{ln}", src="utf16.c", group="C11.4 UTF-16/32 readers", defs={"LEN": str(ln), "WIDE": str(w)}, units=["unicode.c", "type.c"], tier=("quick" if (w == 32 or ln in (3, 4)) else "thorough"),
+                          unwind=12, sample=f"u\"...\"/U\"...\" literal holding any code point of UTF-8 length {ln}", **P, **TK))
+    for fn, nm, alpha, nb in ((0, "canonicalize_newline", '"\\r\\na\\\\"', 7), (1, "remove_backslash_newline", '"\\\\\\na\\r"', 7), (2, "convert_universal_chars", '"\\\\uU0e9\\n"', 8)):
+        js.append(Job(name=f"inplace-{nm}", src="inplace.c", group="C11.5 source normalisation", defs={"FN": str(fn), "ALPHABET": "'" + alpha + "'", "NB": str(nb)}, units=["unicode.c", "type.c"],
+                      unwind=nb + 18, bounded=f"buffers of at most {nb} bytes over a {len(alpha)-10}-letter alphabet", sample=f"{nm} on every buffer of up to {nb} bytes", **P, **TK))
     for b in (10, 8, 16, 2):
         js.append(Job(name=f"ppint-base{b}", src="ppint.c", group="C11.1 integer literal typing", defs={"BASE": str(b)}, units=["unicode.c"],
                       mode="legacy", replace=["strtoul"], cut=["error", "error_tok", "error_at", "warn_tok", "verror_at"], unwind=8, timeout=300, **TK,
